@@ -272,3 +272,10 @@ package journal
 //@   requires j != nil
 //@   modifies *
 //@   ensures result == nil ==> transcodable(j)
+//
+// The two halves of a posting pair produce keys that agree in date, commodity, valuation and
+// description and amounts that are exact negatives - for quantities and for values alike: whatever a
+// report aggregates by those fields, a pair contributes zero.
+//@ lemma pair_nets_zero: forall t *transaction.Transaction, p *posting.Posting, q *posting.Posting, v *commodity.Commodity :: t != nil && pair(p, q) ==>
+//@     keyOf(t, p, v).Date == keyOf(t, q, v).Date && keyOf(t, p, v).Commodity == keyOf(t, q, v).Commodity && keyOf(t, p, v).Valuation == keyOf(t, q, v).Valuation
+//@     && keyOf(t, p, v).Description == keyOf(t, q, v).Description && (v != nil ? p.Value : p.Quantity) == 0.0 - (v != nil ? q.Value : q.Quantity)
